@@ -146,7 +146,15 @@ Definition get_bool_mask {A} (r : rla A) (m : list bool) : res (list A) := get_p
 
 (* rla[starts:stops] (NPSIndexable.__getitem__ -> _ragged_slice -> _start_to_end with vectors): one window per (start, stop) pair.
    The vector code is the scalar code row by row (searchsorted is elementwise; ragged_slice cuts each row's window: C08). *)
-Definition rl_windows {A} (r : rla A) (ss es : list Z) : list (rla A) := map2 (start_to_end A r) ss es.
+(* the vector branch of _start_to_end: an empty window (stop <= start) is cut to no run at all (end_idx := start_idx), and the last boundary
+   is max(stop - start, 0) *)
+Definition start_to_end_v {A} (r : rla A) (s e : Z) : rla A :=
+  let si := ssr (fst r) s - 1 in
+  let ei := if e <=? s then si else ssl (fst r) e in
+  let vals := zslice_l (snd r) si ei in
+  let evs := map (fun x => x - s) (zslice_l (fst r) si (ei + 1)) in
+  (set_last (match evs with [] => [] | _ :: t => 0 :: t end) (Z.max (e - s) 0), vals).
+Definition rl_windows {A} (r : rla A) (ss es : list Z) : list (rla A) := map2 (start_to_end_v r) ss es.
 (* rla[run-length mask] (_getitem_bool): the windows of the mask's true runs, raveled *)
 Definition rl_getitem_rlmask {A} (r : rla A) (m : rla bool) : list A :=
   let starts := mask_filter (removelast (fst m)) (snd m) in
